@@ -100,15 +100,15 @@ Print Assumptions C20_default_cache_same.
 Example C20_example_shortage :
   option_map watcher (cache ex_w) = Some None /\ option_map auto (cache ex_w) = Some true /\ fd_ok ex_w = true /\
   open ex_w = [] /\ gors ex_w = [] /\
-  snd (step ex_w Query) = OAnswer ["v/c=d0"; "v/c=d1"; "v/c=d2"] ["/b/bad.json"] ["/a"; "/b"].
+  snd (step ex_w Query) = OAnswer ["v/c=d0@/a/x.json"; "v/c=d1@/a/y.json"; "v/c=d2@/b/z.yaml"] ["/b/bad.json"] ["/a"; "/b"].
 Proof. exact ex_shortage. Qed.
 Example C20_example_disciplined : disciplined true ex_hist = true /\ cache ex_w <> None.
 Proof. exact ex_disciplined. Qed.
 Example C20_example_one_watcher :
   open ex_w2 = [3] /\ gors ex_w2 = [3] /\ next ex_w2 = 4 /\
   option_map tracked (cache ex_w2) = Some [("/a", true); ("/missing", false)] /\
-  option_map cached (cache ex_w2) = Some (["v/c=d0"], []) /\
-  snd (step ex_w2 Query) = OAnswer ["v/c=d0"; "v/c=m"] [] [] /\
+  option_map cached (cache ex_w2) = Some (["v/c=d0@/a/x.json"], []) /\
+  snd (step ex_w2 Query) = OAnswer ["v/c=d0@/a/x.json"; "v/c=m@/missing/m.json"] [] [] /\
   option_map cached (cache (fst (step (fst (step ex_w2 Query)) (FsOp (WriteFile "/a" "p.json" (Good ["v/c=probe"])))))) =
-    Some (["v/c=d0"; "v/c=m"; "v/c=probe"], []).
+    Some (["v/c=d0@/a/x.json"; "v/c=m@/missing/m.json"; "v/c=probe@/a/p.json"], []).
 Proof. exact ex_one_watcher. Qed.
